@@ -6,7 +6,7 @@ def run(c):
     c.proofs("theories/Properties/C10.v", clean=(c.tier == "thorough"))
     sm.machine(c, "machine", spec=["spec_no_orphans", "spec_noticed"], premise=["premise_terminated"],
                n_quick=1200, n_thorough=16000)
-    sm.e2e(c, "c10", spec=["spec_e2e_no_orphans"], premise=["premise_e2e_dead"], n_quick=30, n_thorough=500)
+    sm.e2e(c, "c10", spec=["spec_e2e_no_orphans", "spec_e2e_prescribed"], premise=["premise_e2e_dead"], n_quick=30, n_thorough=500)
     c.assumptions += sm.ASSUMPTIONS + [
         "terminations that bypass the machine (Node.Kill of the supervisor, failed Spawn during a restart) rely on the "
         "LinkParent exit propagation of node/ - checked end to end on the real node only, not a theorem of this engine",
